@@ -48,10 +48,10 @@ def run(chk):
     if chk.want("R04.10"):
         from ..inherit import inherit
         inherit(chk, "R04.10", "c01", ["R01.1"])
-    chk.rule("R04.11", "the unit-cell atoms the molecules are built from are the distinct sites of the cell: wrap before merge, periodic and distance-based coincidence, occupancy-conserving merge (= C01 R01.3, R01.4)", 4)
+    chk.rule("R04.11", "the unit-cell atoms the molecules are built from are the distinct sites of the cell: wrap before merge, periodic and distance-based coincidence, aligned per-atom columns, occupancy-conserving merge (= C01 R01.2, R01.3, R01.4)", 4)
     if chk.want("R04.11"):
         from ..inherit import inherit
-        inherit(chk, "R04.11", "c01", ["R01.3", "R01.4"])
+        inherit(chk, "R04.11", "c01", ["R01.2", "R01.3", "R01.4"])
     chk.assume("the greedy choice of symmetry-unique molecules, Z' * |G| and all geometry (bonding distances) are not decided")
     chk.assume("scipy connected_components labels partition the nodes; breadth_first_order returns each node's predecessor")
 
@@ -181,7 +181,27 @@ def r04_mol(chk, cr):
         per_atom = ["elements", "positions", "unit_cell_atoms", "asymmetric_unit_atoms", "asymmetric_unit_labels", "generator_symop"]
         roots = {"elements": "$uc_dict['element']", "asymmetric_unit_atoms": "$uc_dict['asym_atom']",
                  "generator_symop": "$uc_dict['symop']", "unit_cell_atoms": "$nodes", "asymmetric_unit_labels": "self.asymmetric_unit.labels"}
-        for k in per_atom:
+        # second accepted layout: the node list itself is sorted once, nodes = nodes[argsort(asym[nodes])], and every per-atom array is
+        # gathered by that sorted list (exactly once, and by no other version of the list)
+        n1 = [v for kk, v in ev.defs.items() if kk[0] == "local" and kk[1] == "nodes" and len(kk) > 2 and kk[2] == 1]
+        sorted_nodes = bool(n1) and defs.get("reorder") is None and n1[0].key().startswith("$nodes[numpy.argsort($uc_dict['asym_atom'][$nodes]")
+        if sorted_nodes:
+            for k in per_atom:
+                v = kw.get(k)
+                root, ops = index_chain(v) if v is not None else (None, [])
+                if root in ("$nodes'1",):
+                    ops = ["$nodes'1"] + ops
+                ok = v is not None and ops[-1:] == ["$nodes'1"] and ops.count("$nodes'1") == 1 and "$nodes" not in ops and root != "$nodes"
+                if k in roots and ok and k != "unit_cell_atoms":
+                    ok = root == roots[k]
+                if k == "asymmetric_unit_labels" and ok:
+                    ok = ops[0] == "$uc_dict['asym_atom']"
+                if k == "positions" and ok:
+                    ok = "$uc_dict['frac_pos']" in root and "shifts" in root
+                chk.ob("R04.2", CR, q, f"per-atom argument '{k}' is gathered by the sorted node list exactly once (and by no other version of it)", ok,
+                       fingerprint=f"chain:{k}", expected="X[nodes] with nodes = nodes[argsort(asym[nodes])]", found=f"{root} -> {ops}")
+            chk.ob("R04.2", CR, q, "the node list is sorted by the asymmetric-unit index of its atoms", True, fingerprint="sorted-nodes", found=str(n1[0])[:120])
+        for k in ([] if sorted_nodes else per_atom):
             v = kw.get(k)
             ok = False
             found = None
@@ -200,8 +220,9 @@ def r04_mol(chk, cr):
             chk.ob("R04.2", CR, q, f"per-atom argument '{k}' is gathered by nodes, then reorder, exactly once", ok,
                    fingerprint=f"chain:{k}", expected="X[nodes][reorder]", found=found)
         ro = defs.get("reorder")
-        chk.ob("R04.2", CR, q, "reorder sorts the molecule's atoms by their asymmetric-unit index",
-               ro is not None and ro.key() == "numpy.argsort($uc_dict['asym_atom'][$nodes])", found=str(ro))
+        if not sorted_nodes:
+            chk.ob("R04.2", CR, q, "reorder sorts the molecule's atoms by their asymmetric-unit index",
+                   ro is not None and ro.key() == "numpy.argsort($uc_dict['asym_atom'][$nodes])", found=str(ro))
     if chk.want("R04.3"):
         tr = [e for e in ev.events if e.kind == "call" and call_name(e.value.as_atom() or ()) == ".translate"]
         chk.need(len(tr) == 1, f"{q}: mol.translate not found")
@@ -230,8 +251,11 @@ def r04_mol(chk, cr):
         chk.ob("R04.4", CR, q, "components come from an undirected connected_components of the bond graph (count, labels)", okcc, found=str(cc))
         loops = [l for l in ev.all_loops if l.kind == "range"]
         okl = bool(loops) and loops[0].lo == P.const(0) and loops[0].hi.key() == "$n_uc_mols"
-        nodes = defs.get("nodes")
-        okn = nodes is not None and nodes.key() == f"numpy.where((eq $uc_mols {loops[0].index}))[0]" if loops else False
+        # the first binding of the node list selects the label; a later rebinding may only permute it (nodes = nodes[argsort(...)])
+        nvers = sorted((kk[2], v) for kk, v in ev.defs.items() if kk[0] == "local" and kk[1] == "nodes" and len(kk) > 2 and isinstance(kk[2], int))
+        nodes = nvers[0][1] if nvers else defs.get("nodes")
+        perm_only = all(v.key().startswith("$nodes[numpy.argsort(") or v.key().startswith("$nodes'") and "[numpy.argsort(" in v.key() for _, v in nvers[1:])
+        okn = nodes is not None and perm_only and nodes.key() == f"numpy.where((eq $uc_mols {loops[0].index}))[0]" if loops else False
         chk.ob("R04.4", CR, q, "one molecule per component label 0..n-1, made of exactly the atoms carrying that label", okl and okn,
                found=f"{loops[0].lo if loops else None}..{loops[0].hi if loops else None}; nodes={nodes}")
         bf = defs.get("ordered")
